@@ -112,7 +112,7 @@ CLAIMED["C05"] = ("bus-rig+client-rig", "exploration",
    BUS_NOTE + " " + RIG_NOTE, "runtime history-vs-model oracle + exactly-once/in-order log check over real clients under random schedules", "DESIGN.md §4 C05")
 CLAIMED["C06"] = ("client-rig", "exploration",
    "Random multi-client programs over the public client API (objects, services, calls of every outcome incl. cancelled ones, event subscriptions with emits, proxies dropped, channels across clients, bus listeners, lifetimes, discovery, proxies to dead services, double claims, families of 2-4 proxies of one service on one client with different subscriptions where one sibling leaves, introspection registered on one client and queried through another, promises kept by the callee until the caller aborts; FIFO sizes 1,2,4,16 and unbounded; negotiated versions 1.14-1.20 through a version-downgrading transport) run under seeded random task schedules with spurious polls. Monitors: panic around every poll, a watchdog for polls that never return, every Client::run and Connection::run returns Ok, every application task finishes by executor quiescence, calls return the echo of their own nonce, events and items carry their own tags in order, and after all clients shut down an idle-shutdown request stops the broker. Held on the (program, schedule) pairs observed.",
-   RIG_NOTE, "runtime invariant monitors (panic, hang, quiescence, result consistency) over randomized task schedules", "DESIGN.md §4 C06")
+   RIG_NOTE + " The thorough tier adds Miri and AddressSanitizer slices of the same programs (a handful of whole multi-client runs under Miri, about a thousand under ASan).", "runtime invariant monitors (panic, hang, quiescence, result consistency) over randomized task schedules; Miri/ASan slices in the thorough tier", "DESIGN.md §4 C06")
 CLAIMED["C15"] = ("client-rig", "fault_enumeration",
    "For generated multi-client programs with a fixed schedule seed, a counting run numbers the ready transport operations on the victim's pipe; the program is re-run once per operation index with an injected error, an end of stream and a half-open (send-only) failure on the client side, with a fault on the broker side of the pipe, with each clean cause (shutdown requested, broker shutdown, forced by the broker handle) triggered at that index, and with a half-open failure coinciding with the shutdown request; 'last handle dropped' is enumerated over the step boundaries of a fixed script. Oracle: Client::run returns (the injected error / Disconnected / Ok), every task working on the victim's handles has finished at quiescence, operations started after the stop report the shutdown, the broker-side connection task has returned, and the broker still stops when idle. Held on the fault runs observed.",
    RIG_NOTE + " The prefix of a re-run equals the counting run because program, schedule seed and transport are deterministic.", "runtime fault injection at every transport operation index + quiescence/termination monitors", "DESIGN.md §4 C15")
